@@ -86,8 +86,8 @@ theorem wrapAll_strip : (v : Val) → (t : Ty) → wfVal t v = true → wrapAll 
   | .error v', t, hw => by
     cases t with
     | error u =>
-      simp only [wfVal] at hw
-      simp [strip, wrapAll, wrapAll_strip v' u hw]
+      simp only [wfVal, Bool.and_eq_true] at hw
+      simp [strip, wrapAll, wrapAll_strip v' u hw.2]
     | _ => simp [wfVal] at hw
 theorem wrapFields_strip : (vs : Vals) → (fs : Fields) → wfVals fs vs = true → wrapFields fs (stripVals vs) = vs
   | .nil, fs, h => by cases fs <;> simp_all [wfVals, stripVals, wrapFields]
